@@ -213,9 +213,9 @@ Theorem c17_api_other_requests : forall s t n,
   api_event (AKick None (Some t)) = None /\ api_event (AKick (Some s) None) = None /\ api_event (AKick None None) = None /\
   rtp_request JAbsent JAbsent JAbsent = Some (mk_rtp_req 0 60000 0) /\
   (forall p tm f, rtp_request (JInt p) (JInt tm) (JInt f) = Some (mk_rtp_req p tm f)) /\
-  (forall p tm f, api_event (AStartRtpPub (Some s) n p tm f) =
-                  match rtp_request p tm f with Some _ => Some (EPsPub s n) | None => None end) /\
-  (forall p tm f, api_event (AStartRtpPub None n p tm f) = None).
+  (forall p tm f l, api_event (AStartRtpPub (Some s) n p tm f l) =
+                  match rtp_request p tm f with Some _ => Some (EPsPub s n l) | None => None end) /\
+  (forall p tm f l, api_event (AStartRtpPub None n p tm f l) = None).
 Proof. intros. repeat split. Qed.
 Print Assumptions c17_api_other_requests.
 
